@@ -328,7 +328,7 @@ pub fn run(ctx: &Ctx) -> (Vec<Case>, String, bool, BTreeMap<String, String>) {
     all.extend(crate::runner::par_cases(ctx, "C05", "table", row_chunks.len(), |i, id| table_case(id, row_chunks[i].clone())));
     all.extend(crate::runner::par_cases(ctx, "C05", "flags", 1, |_, id| flags_case(id)));
     // (iii) blocking helpers
-    let nb = ctx.tier.pick(300, 20000);
+    let nb = ctx.tier.pick(300, 10000);
     all.extend(crate::runner::par_cases(ctx, "C05", "blocking", nb, |i, id| {
         let rng = ctx.case_rng("C05-blocking", i);
         match i % 4 {
@@ -339,7 +339,7 @@ pub fn run(ctx: &Ctx) -> (Vec<Case>, String, bool, BTreeMap<String, String>) {
         }
     }));
     // (ii) structured histories with the need_event oracle
-    all.extend(cq_queue::run_structured(ctx, "C05", 600, 40000));
+    all.extend(cq_queue::run_structured(ctx, "C05", 600, 12000));
     let mut all = cq_queue::filter_for("C05", all);
     // (iv) driver level: per-queue decisions of every driver under independent suppression words
     all.extend(crate::c05_drivers::run_cases(ctx));
